@@ -102,3 +102,24 @@ def _(u):
         u.prove(p + "single-customer-fits", IMPL(z3.ToReal(dmax) <= cap, td["demand"].at(b, i) <= 1))
         u.prove(p + "demand-positive", td["demand"].at(b, i) > 0)
         u.canary(p + "demand-at-most-one-unconditionally", td["demand"].at(b, i) <= 1)
+
+
+@unit("cvrp.generator.init.capacity", file=CVG, func="CVRPGenerator.__init__", props=("C18",))
+def _(u):
+    # the capacity the demands are divided by: the caller's `capacity=` whenever one is given (whatever the instance size),
+    # else the Kool et al. table entry of the size, else the entry of the closest tabulated size
+    cap = u.scalar("capacity", "f")
+    u.requires(cap > 0)
+    s = u.ns(sample=lambda shape: None)
+    kw = dict(loc_sampler=s, depot_sampler=s, demand_sampler=s)
+    table = {10: 20.0, 15: 25.0, 20: 30.0, 30: 33.0, 40: 37.0, 50: 40.0, 60: 43.0, 75: 45.0, 100: 50.0, 125: 55.0, 150: 60.0, 200: 70.0, 500: 100.0, 1000: 150.0}
+    u.native("cvrp.generator.init")
+    for n in (20, 50, 23):
+        g = u.obj(CVG, "CVRPGenerator")
+        u.run(CVG, "CVRPGenerator.__init__", n, selfobj=g, record=False, capacity=cap, **kw)
+        u.native_out(f"explicit{n}", g._attrs["capacity"])
+        u.prove(f"init.num_loc{n}.explicit-capacity-wins", g._attrs["capacity"] is cap or g._attrs["capacity"] == cap)
+    for n, want in ((20, 30.0), (100, 50.0), (23, 30.0), (1, 20.0), (12, 20.0)):
+        g = u.obj(CVG, "CVRPGenerator")
+        u.run(CVG, "CVRPGenerator.__init__", n, selfobj=g, record=False, **kw)
+        u.prove(f"init.num_loc{n}.default-capacity-from-table", g._attrs["capacity"] == want and table.get(n, want) == want, note=f"got {g._attrs['capacity']!r}")
